@@ -228,8 +228,9 @@ class PathResult:
         self.case, self.prefix, self.outcome, self.obligations, self.inputs, self.error = case, prefix, outcome, obligations, inputs, error
 
 
-def explore(ex, key, c):
-    """enumerate all paths of function `key` (all shape cases); returns list of PathResult and list of unsupported notes"""
+def explore(ex, key, c, first_choice=None):
+    """enumerate all paths of function `key` (all shape cases); returns list of PathResult and list of unsupported notes.
+    first_choice=(i, n): only the paths whose first real choice point takes alternative i mod n (work splitting across processes)"""
     results, unsupported = [], []
     for ci, case in enumerate(c.get('cases', [{}])):
         work = [[]]
